@@ -36,6 +36,12 @@ def run(ctx):
         return
     rc, out = vf.sh([h, "-seed", str(ctx.seed), "-n", str(n), "c18"], timeout=1500, env=vf.GOENV)
     lines = [json.loads(l) for l in out.splitlines() if l.startswith("{")]
+    # the forced orderings: a process of its own with one P (what a request gets from a sync.Pool depends on the P)
+    if rc == 0:
+        rc, out2 = vf.sh([h, "-seed", str(ctx.seed), "-n", "4" if ctx.thorough() else "3", "c18forced"], timeout=600,
+                         env=dict(vf.GOENV, GOMAXPROCS="1"))
+        lines += [json.loads(l) for l in out2.splitlines() if l.startswith("{")]
+        out += out2
     cases = [l for l in lines if l.get("kind") == "case"]
     errors = [l for l in lines if l.get("kind") == "error"]
     if rc != 0 or not cases:
@@ -93,7 +99,7 @@ def run(ctx):
     distinct = {json.dumps([c["events"], c["start"] > 4294967000]) for c in cases}
     ctx.coverage.update({
         "evaluations": len(cases), "distinct_nontrivial": len(distinct),
-        "rule": "seeded scenarios: 1-3 waves of 1-6 concurrent real callers (Read/Write) + barrier calls against a scripted server (uacp.Listen + uasc.NewServerSecureChannel) that answers in random order with ok/wrong type/ServiceFault/bad status/abort chunks, duplicates, unsolicited and late frames; request id counter started at random values incl. just below the 2^32 wrap; one case per wave boundary; distinct = distinct event histories",
+        "rule": "seeded scenarios: 1-3 waves of 1-6 concurrent real callers (Read/Write) + barrier calls against a scripted server (uacp.Listen + uasc.NewServerSecureChannel) that answers in random order with ok/wrong type/ServiceFault/bad status/abort chunks, duplicates, unsolicited and late frames; request id counter started at random values incl. just below the 2^32 wrap; one case per wave boundary; plus forced orderings in a GOMAXPROCS=1 process (dispatcher held between popHandler and delivery while the caller gives up and three new requests are issued, repeated; request id counter coming round to a pending id); distinct = distinct event histories",
         "samples": [{"scenario": c["scenario"], "label": c["label"], "start": c["start"], "events": c["events"][:14]} for c in cases[:2] + cases[-1:]],
         "scenarios": n, "scenario_errors": len(errors),
         "frames_by_kind": kinds, "caller_results_by_code": codes,
